@@ -78,6 +78,51 @@ static void runTrie(vio::Cursor & c, vio::Out & o) {
 template <typename It>
 static std::vector<size_t> items(It && it) { std::vector<size_t> v; for (const auto & x : it) v.push_back(x); return v; }
 
+// Traverses an IndexMap in every way its iterator type offers and compares each traversal with [ref]
+// (the range-for traversal, which the driver compares with the spec).  Returns "ok" or the comma
+// separated names of the traversals that differ.  Nothing is dereferenced outside [begin, end):
+// positions are compared with == first.  [minusOk]: (end - k) == (begin + (n - k)) for every k.
+template <typename M>
+static std::string traverse(M & im, const std::vector<size_t> & ref, bool & minusOk) {
+    std::string bad;
+    auto fail = [&](const char * name) { if (!bad.empty()) bad += ","; bad += name; };
+    const auto b = im.begin(), e = im.end();
+    const std::ptrdiff_t n = (std::ptrdiff_t) ref.size();
+    // the positions begin + k, by repeated pre-increment (the reference for the position checks)
+    std::vector<std::decay_t<decltype(b)>> pos;
+    { auto it = b; for (std::ptrdiff_t k = 0; k < n; ++k) { pos.push_back(it); ++it; } pos.push_back(it); if (!(it == e)) fail("size_vs_end"); }
+    if (bad.empty()) {
+        { std::vector<size_t> v; for (auto it = b; it != e; ++it) v.push_back(*it); if (v != ref) fail("pre_increment"); }
+        { bool ok = true; auto it = b; for (std::ptrdiff_t k = 0; k < n; ++k) { auto old = it++; ok = ok && old == pos[k] && it == pos[k + 1]; } if (!ok) fail("post_increment_value"); 
+          else { std::vector<size_t> v; auto jt = b; while (jt != e) v.push_back(*jt++); if (v != ref) fail("post_increment_deref"); } }
+        { std::vector<size_t> v(b, e); if (v != ref) fail("iterator_range"); }
+        if (std::distance(b, e) != n || (e - b) != n || (std::ptrdiff_t) im.size() != n) fail("distance");
+        { bool ok = true; for (std::ptrdiff_t k = 0; k <= n; ++k) { ok = ok && (b + k) == pos[k]; auto it = b; it += k; ok = ok && it == pos[k]; } if (!ok) fail("plus"); }
+        { std::vector<size_t> v; for (std::ptrdiff_t k = 0; k < n; ++k) v.push_back(b[k]); if (v != ref) fail("subscript"); }
+        { bool ok = true; auto it = e; for (std::ptrdiff_t k = n; k > 0; --k) { --it; ok = ok && it == pos[k - 1]; } if (!ok) fail("pre_decrement"); }
+        { bool ok = true; auto it = e; for (std::ptrdiff_t k = n; k > 0; --k) { auto old = it--; ok = ok && old == pos[k] && it == pos[k - 1]; } if (!ok) fail("post_decrement"); }
+        { bool ok = true; for (std::ptrdiff_t k = 0; k <= n; ++k) { auto it = e; it -= k; ok = ok && it == pos[n - k]; } if (!ok) fail("minus_assign"); }
+        { bool ok = true; for (std::ptrdiff_t k = 0; k < n; ++k) ok = ok && pos[k] < pos[k + 1] && pos[k + 1] > pos[k] && pos[k] <= pos[k + 1] && pos[k + 1] >= pos[k]
+                                                                       && !(pos[k + 1] < pos[k]) && pos[k] <= pos[k] && pos[k] >= pos[k] && pos[k] != pos[k + 1];
+          if (!ok) fail("comparisons"); }
+        { bool ok = true; for (std::ptrdiff_t k = 0; k < n; ++k) { auto it = pos[k]; ok = ok && *(it.operator->()) == ref[k] && *it == ref[k]; } if (!ok) fail("arrow"); }
+        { bool ok = true; for (std::ptrdiff_t k = 0; k <= n; ++k) ok = ok && (e - k) == pos[n - k]; minusOk = ok; }
+    }
+    return bad.empty() ? "ok" : bad;
+}
+
+// prints: the range-for traversal, the traversal report for the object and for a const view of it,
+// and whether iterator - n works
+template <typename M>
+static void emit(vio::Out & o, M im) {
+    const auto ref = items(im);
+    o.list(ref);
+    bool m1 = true, m2 = true;
+    const M & cim = im;
+    std::string r1 = traverse(im, ref, m1), r2 = traverse(cim, ref, m2);
+    o << (r1 == "ok" ? r2 : r1) << (m1 && m2);
+}
+
 // Every query is issued twice: through the non-const overload (Iterable) and through the const
 // overload (ConstIterable) of the same FilterMap; both item lists are printed, in that order.
 template <typename TrieType>
@@ -96,16 +141,16 @@ static void runFilterMap(vio::Cursor & c, vio::Out & o) {
         FM & m = *objs[cur];
         const FM & cm = m;
         if (op == "i") { auto pf = readPf(c); m.emplace(pf, 1000 + m.size()); }
-        else if (op == "F") { Factors f = readFactors(c); o.list(items(m.filter(f))); o.list(items(cm.filter(f))); }
+        else if (op == "F") { Factors f = readFactors(c); emit(o, m.filter(f)); emit(o, cm.filter(f)); }
         else if (op == "f") {
             Factors f = readFactors(c); size_t off = c.nextSize();
-            if constexpr (std::is_same_v<TrieType, Trie>) { o.list(items(m.filter(f, off))); o.list(items(cm.filter(f, off))); }
+            if constexpr (std::is_same_v<TrieType, Trie>) { emit(o, m.filter(f, off)); emit(o, cm.filter(f, off)); }
             else throw std::logic_error("offset filter needs Trie");
         }
         else if (op == "p") {
             auto pf = readPf(c);
             // FilterMap<T, FasterTrie>::filter(PartialFactors) does not instantiate (FasterTrie has no such overload)
-            if constexpr (std::is_same_v<TrieType, Trie>) { o.list(items(m.filter(pf))); o.list(items(cm.filter(pf))); }
+            if constexpr (std::is_same_v<TrieType, Trie>) { emit(o, m.filter(pf)); emit(o, cm.filter(pf)); }
             else throw std::logic_error("PartialFactors filter needs Trie");
         }
         else if (op == "z") {
@@ -152,6 +197,25 @@ static void runFaster(vio::Cursor & c, vio::Out & o) {
     }
 }
 
+// IndexMap / IndexSkipMap used directly:  imap <items> <ids> <sorted ids to skip>
+// -> for IndexMap owning its ids, IndexMap over a pointer to the ids, IndexMap over a const container:
+//    range-for traversal, traversal report, iterator-minus flag;  then IndexSkipMap: range-for traversal,
+//    and whether a pre-increment loop over a const view gives the same
+static void runIndexMap(vio::Cursor & c, vio::Out & o) {
+    std::vector<size_t> itemsV = c.nextSizes(), ids = c.nextSizes(), skip = c.nextSizes();
+    const std::vector<size_t> & citems = itemsV;
+    emit(o, AIToolbox::IndexMap<std::vector<size_t>, std::vector<size_t>>(ids, itemsV));
+    emit(o, AIToolbox::IndexMap<std::vector<size_t>*, std::vector<size_t>>(&ids, itemsV));
+    emit(o, AIToolbox::IndexMap<std::vector<size_t>, const std::vector<size_t>>(ids, citems));
+    AIToolbox::IndexSkipMap<std::vector<size_t>, std::vector<size_t>> sm(skip, itemsV);
+    const auto ref = items(sm);
+    o.list(ref);
+    const auto & csm = sm;
+    std::vector<size_t> v; for (auto it = csm.begin(); it != csm.end(); ++it) v.push_back(*it);
+    std::vector<size_t> w; for (auto it = sm.begin(); it != sm.end(); ++it) w.push_back(*(it.operator->()));
+    o << (v == ref && w == ref);
+}
+
 int main(int argc, char ** argv) {
     return vio::runCases(argc, argv, [](vio::Cursor & c, vio::Out & o) {
         const std::string kind = c.next();
@@ -159,6 +223,7 @@ int main(int argc, char ** argv) {
         else if (kind == "ftrie") runFaster(c, o);
         else if (kind == "fmT") runFilterMap<Trie>(c, o);
         else if (kind == "fmF") runFilterMap<FasterTrie>(c, o);
+        else if (kind == "imap") runIndexMap(c, o);
         else throw std::logic_error("unknown case kind " + kind);
     });
 }
